@@ -217,8 +217,8 @@ def summary_eval(chk, repo, mod, rule="C14-S9"):
     st, got = run(mixed)
     if st != "ok" or got != {"odi": {"A": "1"}, "scs": {"B": "2"}, "pds": {"C": "3"}}:
         fails.setdefault("mixed-endings", []).append(f"a text with mixed LF / CRLF endings gives {got.what[:60] if st != 'ok' else got}")
-    # corrupted subsets: 5 lines, every non-empty subset, three kinds of corruption
-    small = base[:5]
+    # corrupted subsets: 6 lines, every non-empty subset, three kinds of corruption
+    small = base[:6]  # includes an entry with an empty value: cut by one character it still ends in a quote
     corruptions = {"missing quote": lambda l: l[:-1], "missing underscore": lambda l: l.replace("_", "", 1), "trailing garbage": lambda l: l + "x", "two-letter section": lambda l: l[1:], "blank line": lambda l: "",
                    "leading blank": lambda l: " " + l, "trailing blank": lambda l: l + " ", "whitespace only": lambda l: "  "}
     for cname, f in corruptions.items():
